@@ -133,6 +133,7 @@ type Obligation struct {
 	Vacuity  bool   // expected result is sat (reachability check)
 	Inlined  bool
 	ExtraCmd string // extra commands (declarations) local to this obligation
+	Seq      int       // generation order within the function
 	Block    int       // top-level basic block the obligation belongs to (-1: none)
 	Cases    []oblCase // if non-empty: one query per case (e.g. per return site); all must be unsat
 }
@@ -260,6 +261,7 @@ func (x *Exec) oblige(kind, anchor, guard, goal, desc string, pos token.Pos) {
 	if len(x.propsOver) > 0 {
 		o.Props = x.propsOver
 	}
+	o.Seq = len(x.obls)
 	x.obls = append(x.obls, o)
 	// once checked, the fact may be assumed downstream
 	x.assume(guard, goal)
@@ -291,6 +293,7 @@ func (x *Exec) obligeCases(kind, anchor string, cases []oblCase, desc string, po
 	if len(x.propsOver) > 0 {
 		o.Props = x.propsOver
 	}
+	o.Seq = len(x.obls)
 	x.obls = append(x.obls, o)
 	for _, c := range keep {
 		x.assume(c.Guard, c.Goal)
